@@ -118,7 +118,9 @@ class Scipy(AbstractIntegrator):
             method=self.method,
         )
 
-        if res.success:
+        # A solution that ran into a singularity can be reported as successful
+        # although it contains inf / nan
+        if res.success and np.all(np.isfinite(res.y)):
             t = np.atleast_1d(np.array(res.t, dtype=float))
             y = np.atleast_2d(np.array(res.y, dtype=float).T)
 
